@@ -133,16 +133,20 @@ def impl_vs_impl(rng, n, residuals_only=False, terms_only=False):
         t0 = dy(rng, 0, 2); ts = jnp.array([[t0 + 0.375 * k] for k in range(B)])          # distinct times
         xs = jnp.array([[dy(rng)] for _ in range(B)])
         bord = jnp.stack([jnp.concatenate([ts, jnp.full((B, 1), xb)], axis=1) for xb in (-1.0, 2.0)], axis=-1)          # (B, 2, 2)
-        common = dict(dynamic_loss=None, omega_boundary_fun=lambda t, x: 0.5, omega_boundary_condition="von neumann")
-        Ls = jinns.loss.LossPDENonStatio(u=s, params=Ps, **common); Lt = jinns.loss.LossPDENonStatio(u=tw, params=Pt, **common)
         txs = jnp.concatenate([ts, xs], axis=1)
-        try:
-            _, a = Ls.evaluate(Ps, PDENonStatioBatch(times_x_inside_batch=txs, times_x_border_batch=bord))
-            _, b = Lt.evaluate(Pt, PDENonStatioBatch(times_x_inside_batch=txs, times_x_border_batch=bord))
-            if not close(a["boundary_loss"], b["boundary_loss"]):
-                fails.append({"detail": f"1-D non-stationary Neumann term with {B} time point(s): {float(a['boundary_loss'])} on the separable network, {float(b['boundary_loss'])} on its pointwise twin", "case": dict(what="terms", cond="von neumann 1-D non-stationary", B=B)})
-        except Exception as ex:
-            fails.append({"detail": f"1-D non-stationary Neumann term with {B} time point(s) raised {type(ex).__name__}: {str(ex)[:160]}", "case": dict(what="terms", cond="von neumann 1-D non-stationary", B=B)})
+        for cond, dimsel, tag in (("von neumann", None, "Neumann"), ("dirichlet", None, "Dirichlet"), ("dirichlet", 0, "Dirichlet on component 0 (integer index)"),
+                                  ("dirichlet", jnp.s_[0:1], "Dirichlet on the slice [0:1]")):
+            common = dict(dynamic_loss=None, omega_boundary_fun=lambda t, x: 0.5 + 0.25 * t[..., 0:1] if hasattr(t, "ndim") and t.ndim > 1 else 0.5 + 0.25 * t, omega_boundary_condition=cond)
+            if dimsel is not None:
+                common["omega_boundary_dim"] = dimsel
+            try:
+                Ls = jinns.loss.LossPDENonStatio(u=s, params=Ps, **common); Lt = jinns.loss.LossPDENonStatio(u=tw, params=Pt, **common)
+                _, a = Ls.evaluate(Ps, PDENonStatioBatch(times_x_inside_batch=txs, times_x_border_batch=bord))
+                _, b = Lt.evaluate(Pt, PDENonStatioBatch(times_x_inside_batch=txs, times_x_border_batch=bord))
+                if not close(a["boundary_loss"], b["boundary_loss"]):
+                    fails.append({"detail": f"1-D non-stationary {tag} term with {B} time point(s): {float(a['boundary_loss'])} on the separable network, {float(b['boundary_loss'])} on its pointwise twin", "case": dict(what="terms", cond=tag + " 1-D non-stationary", B=B)})
+            except Exception as ex:
+                fails.append({"detail": f"1-D non-stationary {tag} term with {B} time point(s) raised {type(ex).__name__}: {str(ex)[:160]}", "case": dict(what="terms", cond=tag + " 1-D non-stationary", B=B)})
         # non-stationary normalisation term: B batch times, N = B, 2B or 4B normalisation samples (the separable branch
         # repeats the times to the sample count), 1-D space
         s, r = spinn(rng, 2, 1, "nonstatio_PDE"); tw = make_twin(s, True)
